@@ -50,7 +50,7 @@ impl TryFrom<&[u8]> for ExceptionResponse {
     type Error = Error;
 
     fn try_from(bytes: &[u8]) -> Result<Self> {
-        if bytes.is_empty() {
+        if bytes.len() < 2 {
             return Err(Error::BufferSize);
         }
         let fn_err_code = bytes[0];
